@@ -546,6 +546,11 @@ fn c04_cands(rng: &mut Rng, _pre: &Snap, _t: Tier) -> Vec<Cand> {
         let s: String = (0..n).map(|_| if rng.below(3) == 0 { *rng.pick(&DRAW_POOL) } else { (b'a' + rng.below(26) as u8) as char }).collect();
         draw_both(&mut v, s);
     }
+    // what only the API can pass in one call (see gen::mixed_api_string): composable pairs and
+    // jamo next to each other with a combining mark elsewhere, controls, sequences
+    for _ in 0..4 {
+        v.push(Cand::api(Call::Draw(gen::mixed_api_string(rng))));
+    }
     // characters from the class-representative sample of all of Unicode, alone, after a narrow
     // and after a wide character, and in a short run
     for _ in 0..6 {
@@ -854,6 +859,61 @@ fn c08_cands(rng: &mut Rng, _pre: &Snap, _t: Tier) -> Vec<Cand> {
 }
 
 fn c08_enum(chk: &StepCheck, cx: &mut Ctx) {
+    // all 16 777 216 true colours, foreground and background: the colour string must be exactly
+    // rrggbb. One long-lived screen per worker, the rendition read back directly; a mismatch or a
+    // panic is handed to the step monitor for a proper verdict and witness.
+    if cx.begin_group("truecolour sweep") {
+        use memterm::parser_listener::ParserListener;
+        let mut scr = memterm::screen::Screen::new(2, 1);
+        let mut bad: Vec<Vec<u32>> = Vec::new();
+        let mut complete = true;
+        'sweep: for r in 0..256u32 {
+            if !cx.mine(r as u64) {
+                continue;
+            }
+            for g in 0..256u32 {
+                for b in 0..256u32 {
+                    let head = if (r + g + b) % 2 == 0 { 38 } else { 48 };
+                    let want = format!("{:02x}{:02x}{:02x}", r, g, b);
+                    let ok = crate::sys::catch(|| {
+                        scr.select_graphic_rendition(&[head, 2, r, g, b]);
+                        if head == 38 {
+                            scr.cursor.attr.fg == want
+                        } else {
+                            scr.cursor.attr.bg == want
+                        }
+                    });
+                    if !matches!(ok, Ok(true)) {
+                        bad.push(vec![head, 2, r, g, b]);
+                        if ok.is_err() {
+                            scr = memterm::screen::Screen::new(2, 1);
+                        }
+                        if bad.len() > 20 {
+                            break 'sweep;
+                        }
+                    }
+                }
+                cx.stats.evaluations += 256;
+            }
+            if cx.used() > 0.3 || cx.out_of_time() {
+                complete = false;
+                break;
+            }
+        }
+        if !bad.is_empty() {
+            if let Some((base, pre)) = reach(cx, 3, 2, &[]) {
+                let mut cands = Vec::new();
+                for l in bad {
+                    sgr_then_draw(&mut cands, l);
+                }
+                fan_out(cx, chk.id, &chk.owns, 3, 2, &[], &base, &pre, &cands);
+            }
+        }
+        if complete {
+            cx.stats.count("truecolour_sweeps_completed", 1);
+            cx.stats.exhaustive_parts.insert("all 16 777 216 colours 38|48;2;r;g;b through the API (colour string read back)".into());
+        }
+    }
     // six attribute states on a 3x2 screen
     let states: [&[u32]; 6] = [&[], &[1, 31, 44], &[3, 4, 5, 7, 9, 97, 100], &[38, 5, 196, 48, 2, 1, 2, 3], &[7], &[22, 39, 49, 4]];
     let (c, l) = (3u32, 2u32);
@@ -964,6 +1024,31 @@ fn c08_enum(chk: &StepCheck, cx: &mut Ctx) {
                 }
             }
         }
+        // two lists in a row where the second differs from the first only by a carry between
+        // neighbouring parameters (b + 256, a - 1): identical under any packing of parameters
+        // into bytes, different in meaning (the out-of-range / unknown value must be ignored)
+        for a in SGR_DOC.iter().step_by(3) {
+            for b in SGR_DOC.iter().step_by(2) {
+                k += 1;
+                if !cx.mine(k) || *a == 0 {
+                    continue;
+                }
+                for lead in [vec![0u32], vec![]] {
+                    let mut l1 = lead.clone();
+                    l1.extend([*a, *b]);
+                    let mut l2 = lead.clone();
+                    l2.extend([*a - 1, *b + 256]);
+                    cands.push(Cand { ops: vec![Op::Api(Call::Sgr(l1.clone())), Op::Api(Call::Draw("x".into())), Op::Api(Call::Sgr(l2.clone())), Op::Api(Call::Draw("y".into()))] });
+                    cands.push(Cand { ops: vec![Op::Api(Call::Sgr(l2)), Op::Api(Call::CursorPosition(Some(1), Some(1))), Op::Api(Call::Sgr(l1)), Op::Api(Call::Draw("y".into()))] });
+                }
+            }
+        }
+        for n in [44u32, 196, 255] {
+            for head in [38u32, 48] {
+                cands.push(Cand { ops: vec![Op::Api(Call::Sgr(vec![0, head, 5, n])), Op::Api(Call::Draw("x".into())), Op::Api(Call::Sgr(vec![0, head, 5, n + 256])), Op::Api(Call::Draw("y".into()))] });
+                cands.push(Cand { ops: vec![Op::Api(Call::Sgr(vec![0, head, 5, n])), Op::Api(Call::Sgr(vec![0, head, 4, n + 256])), Op::Api(Call::Draw("y".into()))] });
+            }
+        }
         // all ordered pairs over the documented codes
         for a in SGR_DOC.iter() {
             for b in SGR_DOC.iter() {
@@ -1038,6 +1123,28 @@ fn c12_cands(rng: &mut Rng, _pre: &Snap, _t: Tier) -> Vec<Cand> {
                 v.push(Cand { ops: vec![Op::Feed(format!("{}{}", pre, seq))] });
             }
         }
+    }
+    // "erases the screen and homes the cursor" in both directions, with a region and origin mode
+    // set while in the other width (home is (0,0) afterwards: the region does not survive)
+    for _ in 0..3 {
+        let mut ops: Vec<Op> = Vec::new();
+        let first_set = rng.bool();
+        ops.push(Op::Api(if first_set { SetMode(vec![3], true) } else { ResetMode(vec![3], true) }));
+        let l = _pre.lines;
+        if l >= 2 {
+            let t = rng.range(1, l - 1);
+            ops.push(Op::Api(SetMargins(Some(t), Some(rng.range(t + 1, l)))));
+        }
+        if rng.below(3) != 0 {
+            ops.push(Op::Api(SetMode(vec![6], true)));
+        }
+        ops.push(Op::Api(CursorPosition(Some(rng.range(1, l)), Some(rng.range(1, 140)))));
+        ops.push(Op::Api(Draw("w".into())));
+        ops.push(Op::Api(if first_set { ResetMode(vec![3], true) } else { SetMode(vec![3], true) }));
+        if rng.bool() {
+            ops.push(Op::Api(if first_set { SetMode(vec![3], true) } else { ResetMode(vec![3], true) }));
+        }
+        v.push(Cand { ops });
     }
     // "RM restores the previous width": the width remembered by SM ?3 must survive explicit
     // resizes and RM ?3 at other widths until an RM ?3 finds the screen 132 wide again
@@ -1664,6 +1771,55 @@ fn c18_cands(rng: &mut Rng, pre: &Snap, _t: Tier) -> Vec<Cand> {
         ops.push(Op::Api(Resize(None, Some(wide))));
         ops.push(Op::Api(CarriageReturn));
         for _ in 0..(wide / 8 + 4) {
+            ops.push(Op::Api(Tab));
+        }
+        v.push(Cand { ops });
+    }
+    // edits, width changes (also back to an earlier width) and resets with HT walks ON THE MAIN
+    // LINE in between: whatever an implementation caches about the stop set is built at every
+    // stage and must still be right at the next
+    for _ in 0..6 {
+        let mut ops: Vec<Op> = Vec::new();
+        let mut widths: Vec<u32> = vec![c];
+        let mut w = c;
+        for _ in 0..3 + rng.below(6) {
+            match rng.below(9) {
+                0 | 1 => {
+                    // walk
+                    ops.push(Op::Api(CarriageReturn));
+                    for _ in 0..1 + rng.below(4) {
+                        ops.push(Op::Api(Tab));
+                    }
+                }
+                2 => {
+                    let x = match rng.below(5) {
+                        0 => 1,
+                        1 => w,
+                        2 => 8 * rng.range(0, w / 8) + 1,
+                        3 => 129,
+                        _ => rng.range(1, w),
+                    };
+                    ops.push(Op::Api(CursorToColumn(Some(x))));
+                    if rng.below(3) == 0 {
+                        ops.push(Op::Api(Draw("w".into())));
+                    }
+                    ops.push(Op::Api(if rng.below(3) == 0 { ClearTabStop(Some(0)) } else { SetTabStop }));
+                }
+                3 => ops.push(Op::Api(ClearTabStop(Some(*rng.pick(&[0u32, 3, 1]))))),
+                4 | 5 => {
+                    w = if rng.bool() { *rng.pick(&widths) } else { rng.range(1, 140) };
+                    widths.push(w);
+                    ops.push(Op::Api(Resize(None, Some(w))));
+                }
+                6 => {
+                    ops.push(Op::Api(if rng.bool() { SetMode(vec![3], true) } else { ResetMode(vec![3], true) }));
+                }
+                7 => ops.push(Op::Api(Reset)),
+                _ => ops.push(Op::Api(Tab)),
+            }
+        }
+        ops.push(Op::Api(CarriageReturn));
+        for _ in 0..18 {
             ops.push(Op::Api(Tab));
         }
         v.push(Cand { ops });
